@@ -21,21 +21,29 @@ seam checks through the trace hook (they localise a failure and tie the stage mo
      file, a read of s (key seam-read-sample); in-process: the real MultiBamReader.fetch(contig, sample) of every run's files
      == the generator's reads of that sample (key fetch-read-sample) == Lean `C02Bam.fetch` (op c02.fetch;
      Props.C02.fetched_reads_are_the_samples, fetch_none_iff, fetched_reads_disjoint)
+  A' reader reuse (round 9): one real PhasedInputReader/ReadSetReader per layout, in-process, queried for every (chromosome,
+     sample) in chromosome-major / sample-major / shuffled order with repetitions: every returned read is a read of that sample
+     on that chromosome and every allele is its haplotype's (keys reader-allele, reader-read-sample, reader-repeat); plus extra
+     cases on references whose contigs are related by length/sequence (harness/gen/c02_contigs.py: equal length, identical,
+     off by one, shared prefix/suffix, rotated, near copies; 2-5 contigs, 1-3 samples)
 """
 import json, os, shutil
 
 from harness.gen import sim
 from harness.gen import c02_forms as FORMS
 from harness.gen import c02_layout as LAYOUT
+from harness.gen import c02_contigs as CONTIGS
 
-RULE = ("generated phasing scenarios with ground truth: 1-2 contigs, 3-14 well separated variants (SNV, MNP, "
+RULE = ("generated phasing scenarios with ground truth: 1-2 contigs (plus cases with 2-5 contigs related by length/sequence: equal length, "
+        "identical, lengths differing by one, shared prefix/suffix, rotated, near copies; several contig-name styles), 3-14 well separated variants (SNV, MNP, "
         "insertion, deletion), 1-3 samples with own true haplotypes, error-free single and paired reads, depth 2-40 "
         "(above the internal cap of 15), input genotypes in every textual form (0/1, 1/0, 0|1, 1|0 with/without PS, HP values, "
         "mixed within a phase set), options --tag PS/HP, --only-snvs, --sample subsets, --ignore-read-groups "
         "(single sample); alignment-file layouts (1-6 files: per-sample files, several files per sample, mixed files; 1-3 read "
         "groups per file and sample; read-group IDs numbered per file so that one ID names different samples in different "
         "files, shared pool, unique, legacy; header-only decoy @RG lines; read names unique or numbered per file), one CLI "
-        "process or 2-3 runs in one interpreter, plus in-process MultiBamReader.fetch queries per sample. Non-trivial = at least one phase set with >= 2 variants in the output; distinct = distinct "
+        "process or 2-3 runs in one interpreter, plus in-process MultiBamReader.fetch queries per sample and one in-process PhasedInputReader reused for "
+        "(chromosome, sample) queries in several orders with repetitions. Non-trivial = at least one phase set with >= 2 variants in the output; distinct = distinct "
         "(seed-derived) scenario")
 ASSUMPTIONS = ["'well separated' = consecutive variants at least 25 bp apart (beyond the 10 bp re-alignment overhang)",
                "htslib/pysam used to write inputs and parse outputs"]
@@ -160,6 +168,9 @@ def run(ctx):
     n_runs = (40 if ctx.quick else 400) * ctx.scale
     seeds = [rng.randrange(1 << 30) for _ in range(n_runs)]
     cases = [{"scenario_seed": s} for s in seeds]
+    # round 9: additional cases on references whose contigs are related by length / sequence (harness/gen/c02_contigs.py);
+    # drawn AFTER the seeds above, so the older cases are the same as before
+    cases += [{"scenario_seed": rng.randrange(1 << 30), "contigs": "related"} for _ in range((16 if ctx.quick else 160) * ctx.scale)]
     if ctx.replay:
         cases = [json.load(open(ctx.replay))["case"]]
     else:
@@ -175,11 +186,25 @@ def run(ctx):
             kinds = r2.choice([("snv",), ("snv", "ins", "del", "mnp"), ("snv", "ins", "del", "mnp"), ("ins", "del"), ("mnp", "snv")])
             deep = r2.random() < 0.3
             repeats = r2.random() < 0.3
+            contig_info = None
+            if case.get("contigs"):
+                # multi-contig reference with equal-length / identical / off-by-one / shifted contigs (own random stream)
+                repeats = False
+                if deep and nsamp > 1:
+                    deep = r2.random() < 0.3      # keep the quick tier quick: up to 5 contigs x 3 samples
+                given, contig_info = CONTIGS.gen_contigs(random.Random(case["scenario_seed"] ^ 0xC02D), kinds)
+            else:
+                given = repeat_reference(r2) if repeats else None
             sc = sim.Scenario(r2, n_contigs=r2.choice([1, 1, 2]), contig_len=(700, 1600), n_variants=(3, 14), kinds=kinds,
                               samples=tuple(f"S{i + 1}" for i in range(nsamp)), depth=((18, 40) if deep else (2, 10)),
                               read_len=(r2.choice([60, 100, 150]), r2.choice([200, 400, 700])),
-                              het_prob=(0.95 if repeats else 0.8), given=(repeat_reference(r2) if repeats else None))
-            ctx.dist("reference", "segmental-duplication" if repeats else "random")
+                              het_prob=(0.95 if repeats else 0.8), given=given)
+            ctx.dist("reference", "segmental-duplication" if repeats else ("related contigs" if contig_info else "random"))
+            ctx.dist("contigs", len(sc.contigs))
+            if contig_info:
+                for rel in contig_info["relations"][1:]:
+                    ctx.dist("contig_relation", rel)
+                ctx.dist("equal_length_neighbour_contigs", min(contig_info["equal_length_neighbours"], 2))
             make_pairs(r2, sc, r2.choice([0.0, 0.0, 0.3]))
             if r2.random() < 0.25:
                 add_island(r2, sc, ctx)
@@ -321,6 +346,8 @@ def run(ctx):
               desc = {**case, "args": args[1:], "samples": sc.samples, "kinds": list(kinds), "deep": deep, "gt_forms": gt_forms}
               if run_["layout"]:
                   desc["layout"] = run_["layout"]
+              if contig_info:
+                  desc["contig_info"] = contig_info
               if inproc:
                   desc["in_process_run"] = f"{ri + 1} of {len(runs)} in one interpreter"
               if rc != 0:
@@ -444,6 +471,7 @@ def run(ctx):
                      "file_of": {id(r): pl[0] for r, pl in zip(sc.reads, place)}, "name_of": {id(r): pl[2] for r, pl in zip(sc.reads, place)},
                      "rg_of": {id(r): pl[1] for r, pl in zip(sc.reads, place)}, "headers": info["files"], "layout": info}
             fetch_stream(ctx, sc, [extra] + runs, case, fetch_reqs, fetch_meta)
+            reader_stream(ctx, sc, [extra] + runs, fa, vcf, {**case, "contig_info": contig_info} if contig_info else case)
             if len(ctx.samples) < 2:
                 ctx.sample({"case": desc, "n_records": len(recs), "n_trace": len(trace)})
     finally:
@@ -516,6 +544,81 @@ def fetch_stream(ctx, sc, runs, case, reqs, meta):
     finally:
         for reader in readers:
             reader.close()
+
+
+def reader_stream(ctx, sc, runs, fa, vcf, case):
+    """round 9: ONE real `PhasedInputReader` (hence one `ReadSetReader`, one open reference FASTA) per alignment-file layout,
+    opened IN THIS PROCESS and reused for a random sequence of (chromosome, sample) queries — every pair at least once, in
+    random order, with repetitions, chromosome-major (what `whatshap phase` does), sample-major and fully shuffled — the way
+    phase/genotype/haplotag reuse their reader across chromosomes and samples.  Oracle (seam A on ALL reads, not only the
+    selected ones): a read returned for (chromosome c, sample s) is by the generator's bookkeeping a read of s on c, and every
+    allele it was given is the allele its true haplotype carries at that position of c (key reader-allele / reader-read-sample);
+    repeating a query gives the same reads (key reader-repeat)."""
+    import logging, random
+    from whatshap.cli import PhasedInputReader
+    from whatshap.core import NumericSampleIds
+    from whatshap.vcf import VcfReader
+    logging.getLogger("whatshap.bam").setLevel(logging.ERROR)
+    r6 = random.Random(case["scenario_seed"] ^ 0xC02E)
+    with VcfReader(vcf, only_snvs=False) as vr:
+        tables = {t.chromosome: t for t in vr}
+    chroms = [c for c in sc.contigs if c in tables]
+    pairs = [(c, s) for c in chroms for s in sc.samples]
+    for k, run_ in enumerate(runs):
+        if k > 0 and r6.random() < 0.5:
+            continue
+        order = r6.choice(["chromosome-major", "sample-major", "shuffled"])
+        q = list(pairs)
+        if order == "sample-major":
+            q = [(c, s) for s in sc.samples for c in chroms]
+        elif order == "shuffled":
+            r6.shuffle(q)
+        elif r6.random() < 0.5:
+            cs = list(chroms); r6.shuffle(cs)          # chromosome-major in another chromosome order
+            q = [(c, s) for c in cs for s in sc.samples]
+        q += [r6.choice(pairs) for _ in range(r6.randrange(0, len(pairs) + 1))]      # repetitions / going back
+        file_of, name_of = run_["file_of"], run_["name_of"]
+        who = {}
+        for r in sc.reads:
+            who.setdefault((file_of.get(id(r), 0), name_of.get(id(r), r["name"]), r["chrom"]), (r["sample"], r["hap"]))
+        desc = {**case, "bams": run_["bams"], "samples": sc.samples, "layout": run_["layout"], "query_order": order,
+                "queries": [list(x) for x in q],
+                "stream": f"in-process PhasedInputReader.read (one reader for all queries), layout {k + 1} of {len(runs)} of this case"}
+        ctx.dist("reader_query_order", order)
+        ctx.dist("reader_queries", min(len(q), 12))
+        seen = {}
+        with PhasedInputReader(list(run_["bams"]), fa, NumericSampleIds(), False, only_snvs=False, mapq_threshold=20) as pir:
+            for qi, (c, s) in enumerate(q):
+                readset, _ = pir.read(c, tables[c].variants, s, read_vcf=False)
+                posidx = {v.pos: i for i, v in enumerate(sc.variants[c])}
+                got = sorted((rd.source_id, rd.name, tuple((v.position, v.allele) for v in rd)) for rd in readset)
+                if (c, s) in seen and seen[(c, s)] != got:
+                    ctx.fail(f"query {qi + 1} ({c}, {s}) repeated on the same reader gave other reads/alleles than the first time "
+                             f"({len(seen[(c, s)])} vs {len(got)} reads; first difference: "
+                             f"{sorted(set(seen[(c, s)]) ^ set(got))[:2]})", desc, key="reader-repeat")
+                seen.setdefault((c, s), got)
+                bad = False
+                for src, name, vs in got:
+                    t = who.get((src, name, c))
+                    if t is None or t[0] != s:
+                        ctx.fail(f"query {qi + 1} ({c}, {s}): read {name!r} of input file {src} was returned, which is "
+                                 + ("no read of that file on that chromosome" if t is None else f"a read of sample {t[0]}"),
+                                 desc, key="reader-read-sample")
+                        bad = True
+                        break
+                    hv = sc.haps[(s, c)][t[1]]
+                    for pos, al in vs:
+                        if pos not in posidx or hv[posidx[pos]] != al:
+                            prev = q[qi - 1] if qi else None
+                            ctx.fail(f"query {qi + 1} ({c}, {s}; previous query {prev}; contig lengths "
+                                     f"{[len(x) for x in sc.contigs.values()]}): read {name} (error-free copy of haplotype {t[1]} "
+                                     f"of {s}) was given allele {al} at {c}:{pos}, its haplotype carries "
+                                     f"{hv[posidx[pos]] if pos in posidx else 'no variant there'}", desc, key="reader-allele")
+                            bad = True
+                            break
+                    if bad:
+                        break
+                ctx.validated()
 
 
 def trace_to_raw(tr):
